@@ -23,7 +23,7 @@ RULE = ("(1) Traced runs from the shared end-to-end generator that converged (ru
 ASSUMPTIONS = ["exit reason (converged) is read from the guarded run_end hook", "runs where some cluster is empty or that stopped at the limit are outside the property's quantifier (discarded)"]
 
 
-def _judge(got, data, labels, K, t, what):
+def _judge(got, data, labels, K, t, what, rel=1e-9):
     col = metrics_ref.calinski_harabasz(data, labels, K, "column")
     sca = metrics_ref.calinski_harabasz(data, labels, K, "scalar")
     try:
@@ -32,11 +32,11 @@ def _judge(got, data, labels, K, t, what):
         raise Violation(f"{what}: index is not a number: {got!r}")
     tol = lambda ref: 1e-9 * (abs(ref) + 1e-300) + 1e-12 * abs(ref)
     distinguishable = abs(col - sca) > 1e-6 * max(abs(col), abs(sca), 1e-300)
-    if math.isfinite(g) and abs(g - col) <= 1e-9 * abs(col):
+    if math.isfinite(g) and abs(g - col) <= rel * abs(col):
         return "ok", distinguishable, col
     if not math.isfinite(col) and not math.isfinite(g):
         return "ok", False, col         # zero within-cluster dispersion: ratio undefined in the definition itself
-    if math.isfinite(g) and abs(g - sca) <= 1e-9 * abs(sca):
+    if math.isfinite(g) and abs(g - sca) <= rel * abs(sca):
         return "KF2", distinguishable, col
     raise Violation(f"{what}: index {g!r} equals neither the definition ({col!r}) nor the scalar-centre variant ({sca!r})")
 
@@ -65,8 +65,9 @@ def execute_e2e(case, t):
 def function_case(draw):
     nw = draw(st.integers(1, 8))
     K = draw(st.integers(2, 4))
-    T = draw(st.integers(2 * K + 1, 60))
-    return {"nw": nw, "K": K, "T": T, "seed": draw(st.integers(0, 2 ** 32 - 1)), "min_size": draw(st.sampled_from([1, 1, 2])),
+    T = draw(st.one_of(st.integers(2 * K + 1, 60), st.integers(2 * K + 1, 60), st.integers(2 * K + 1, 60),
+                       st.sampled_from([4097, 4700, 8200, 9001])))
+    return {"nw": nw if T < 1000 else min(nw, 3), "K": K, "T": T, "seed": draw(st.integers(0, 2 ** 32 - 1)), "min_size": draw(st.sampled_from([1, 1, 2])), "noise_scale": draw(st.sampled_from([1.0, 1.0, 1.0, 1e-3, 1e-5])),
             "col_offsets": draw(st.sampled_from(["none", "small", "large"])),
             "shift_scale": draw(st.sampled_from([0.5, 10.0, 1000.0]))}
 
@@ -87,7 +88,7 @@ def _build(case, shift=None):
         labels = list(range(K)) * 2 + [int(v) for v in rng.integers(0, K, size=T - 2 * K)]
     rng.shuffle(labels)
     centres = rng.normal(0, 3, size=(K, nw))
-    data = centres[labels] + rng.normal(size=(T, nw))
+    data = centres[labels] + rng.normal(size=(T, nw)) * case.get("noise_scale", 1.0)
     if case["col_offsets"] != "none":
         data = data + rng.normal(0, 5 if case["col_offsets"] == "small" else 500, size=nw)
     sh = rng.normal(0, case["shift_scale"], size=nw)
@@ -114,9 +115,17 @@ def execute_function(case, t):
         v2 = cluster_metrics.calinski_harabasz_index(data2, ms2)
     except Exception as e:
         raise Violation(f"calinski_harabasz_index raised {type(e).__name__}: {e}")
-    verdict1, dist1, col1 = _judge(v1, data, labels, K, t, "function level")
-    verdict2, dist2, col2 = _judge(v2, data2, labels, K, t, "function level, translated data")
+    # squared distances of size sigma^2 computed from coordinates of size M carry a relative rounding error ~ 2 eps M / sigma
+    sigma = case.get("noise_scale", 1.0)
+    rel1 = 1e-9 + 16 * 2.2e-16 * float(np.max(np.abs(data))) / sigma
+    rel2 = 1e-9 + 16 * 2.2e-16 * float(np.max(np.abs(data2))) / sigma
+    verdict1, dist1, col1 = _judge(v1, data, labels, K, t, "function level", rel1)
+    verdict2, dist2, col2 = _judge(v2, data2, labels, K, t, "function level, translated data", rel2)
+    if sigma < 1:
+        t.cls("tiny_within_cluster_dispersion")
     t.cls(f"col_offsets_{case['col_offsets']}")
+    if case["T"] > 4096:
+        t.cls("more_than_4096_windows")
     if min(labels.count(k) for k in range(K)) == 1:
         t.cls("singleton_cluster")
     if dist1 or dist2:
@@ -127,7 +136,7 @@ def execute_function(case, t):
         t.known_finding("KF2", "Calinski-Harabasz index centred on the scalar mean of all entries instead of the per-column centroid")
         return
     # both equal the definition; the definition is translation invariant, so the two values must agree
-    if abs(float(v1) - float(v2)) > 1e-6 * abs(float(v1)) * (1 + case["shift_scale"]):
+    if abs(float(v1) - float(v2)) > (1e-6 + rel1 + rel2) * abs(float(v1)) * (1 + case["shift_scale"]):
         raise Violation(f"index changed from {float(v1)!r} to {float(v2)!r} when a constant was added to each sensor")
 
 
